@@ -202,7 +202,7 @@ EXTRA = {
     'C19': SRC('scaler.minrange2minmax, shift_and_scale and minmax_scale', 'C19_src_*'),
     'C20': (" Source tie: wmo.okta2symb (the symbol behind every slice / group / layer label) is translated from /repo's current "
             "source by harness/py2lean.py on every run; C20_src_symb_* are stated about that text directly: total on every okta a "
-            "table can hold (0..8 by C03_okta_range, and 9) in both styles, injective in the metsymb style, AmpycloudError outside "
+            "table can hold (0..8 by C03_okta_range, and 9) in both styles - also source to source, for what the translated perc2okta returns (C20_src_symb_of_src_okta) -, injective in the metsymb style, AmpycloudError outside "
             "0..9; the same statement is run on the implementation (C20.okta-symbol-total)."),
 }
 
